@@ -45,6 +45,7 @@ def run(ctx, rep):
                           b.where(bi), 'the result of `%s` in %s is dropped without being looked at: a backend error '
                           'is lost and the operation continues as if the request had succeeded' % (what[:140], fn))
     nd = discard_combinators(f, rep, 'C17.1')
+    swallowed_arm_rule(f, rep, 'C17.8')
     rep.ob('C17.1', 'error-discarding combinators (or / ok / unwrap_or / unwrap_or_default) on Qcow2 results', nd == 0, '%d call(s)' % nd)
     rep.floor('call sites scanned for dropped results', n_calls, 3000)
     from .. import errs
@@ -155,3 +156,69 @@ def discard_combinators(f, rep, rid, scope=None):
                                       'reports success' % (me, suf.split('::')[-1],
                                                            'when the receiver is Ok the argument is dropped with its error' if ai == 1 else 'the error is thrown away'))
     return nd
+
+
+def swallowed_arm_rule(f, rep, rid):
+    """A `match` on a Result<_, Qcow2Error> counts as "looked at" for C17.1.  This rule looks at what the Err arm does: an
+    arm that never reads the error value and contains no call into the crate (no fallback, no roll-back, no replacement
+    error built) only falls through to what follows - the failure is swallowed and the operation goes on to its Ok
+    result.  Decided on the region of the control-flow graph the arm's entry block dominates."""
+    rep.rule(rid, 'the Err arm of a decision on a Result<_, Qcow2Error> in asynchronous library code reads the error, or calls '
+                  'something (fallback / roll-back / building another error): an arm that does neither swallows a backend failure')
+
+    def direct_result(tid):
+        t = f.types[tid]
+        if t['k'] == 'adt' and t['p'] == 'std::result::Result' and len(t['a']) == 2:
+            e = f.types[t['a'][1]] if t['a'][1] >= 0 else None
+            return e is not None and e.get('p', '').endswith('Qcow2Error')
+        return False
+    n = 0
+    for b in f.body_list:
+        if '::tests::' in b.path or not b.is_coroutine or not b.path.startswith('dev::'):
+            continue
+        for bi in sorted(b.reachable()):
+            t = b.blocks[bi]['term']
+            if t['k'] != 'switch' or t['d']['k'] not in ('copy', 'move'):
+                continue
+            dl = t['d']['pl']['l']
+            src = None
+            for s in b.blocks[bi]['st']:
+                if s['k'] == 'assign' and s['pl']['l'] == dl and not s['pl']['p'] and s['rv']['k'] == 'discr':
+                    src = s['rv']['pl']
+            if src is None or src['p'] or not direct_result(b.locals[src['l']]):
+                continue
+            ts = {int(x['v']): x['t'] for x in t['ts']}
+            ok_bb, err_bb = ts.get(0, t.get('o')), ts.get(1, t.get('o'))
+            if ok_bb is None or err_bb is None or ok_bb == err_bb:
+                continue
+            n += 1
+            region = {x for x in b.reachable() if b.dominates(err_bb, x)}
+            used = False
+            acts = []
+            for x in region:
+                bl = b.blocks[x]
+                for s in bl['st']:
+                    if s['k'] != 'assign':
+                        continue
+                    pls = [o['pl'] for o in s['rv'].get('ops', []) if o['k'] in ('copy', 'move')]
+                    if s['rv']['k'] in ('ref', 'rawptr', 'discr'):
+                        pls.append(s['rv']['pl'])
+                    if any(pl['l'] == src['l'] and pl['p'] for pl in pls):
+                        used = True
+                tt = bl['term']
+                if tt['k'] == 'call':
+                    fn = tt.get('fn') or ''
+                    if any(a['k'] in ('copy', 'move') and a['pl']['l'] == src['l'] for a in tt['args']):
+                        used = True
+                    if f.body(fn) is not None or fn.endswith(('::into', '::from')) or tt.get('t', 0) < 0:
+                        acts.append(fn)
+            ok = used or bool(acts)
+            me = short(b.path)
+            rep.ob(rid, '%s: Err arm of the decision at %s' % (me, b.where(bi)), ok,
+                   'reads the error' if used else ('calls %s' % short(acts[0]) if acts else 'neither reads the error nor calls anything'))
+            if not ok:
+                rep.violation(rid, '%s:%s' % (rid, me), b.where(bi),
+                              '%s: the Err arm of the decision at %s neither reads the error nor does anything about it (no fallback, no '
+                              'roll-back, no error returned): a failed backend request is swallowed and the call goes on to return Ok - e.g. '
+                              'a read of several clusters whose first cluster fails returns Ok(0) with the buffer untouched' % (me, b.where(bi)))
+    rep.floor('Err arms of Result decisions examined', n, 6)
